@@ -171,6 +171,7 @@ class Harnessed:
         self.is_ensemble = self.kind == "ensemble"
         self.n_walkers = cfg.get("n_walkers", 1)
         self.limits = {}  # parameter -> [lower, upper] set on the chain after construction
+        self._bnd, self._nn = {}, set()
         for w, i, width, frac in cfg.get("limits") or []:
             x0 = float(inputs["start"][i])
             cur = self.limits.setdefault(i, [-np.inf, np.inf])
@@ -180,9 +181,11 @@ class Harnessed:
                     lo = max(lo, -0.25 * width) if x0 >= 0 else lo
                 lib_call("set_boundaries", self.chain.set_boundaries, i, (lo, lo + width))
                 cur[0], cur[1] = max(cur[0], lo), min(cur[1], lo + width)
+                self._bnd[i] = (lo, lo + width)
             if w in ("nonneg", "both") and x0 >= 0:
                 lib_call("set_non_negative", self.chain.set_non_negative, i, True)
                 cur[0] = max(cur[0], 0.0)
+                self._nn.add(i)
 
     def foreign_point(self, pos):
         """A point handed to this chain by an exchange comes from a chain with the same limits: bring `pos`
@@ -376,17 +379,20 @@ def runaway_violation(h, op, exc):
 
 def op_interrupted_advance(h, m, k):
     """advance(m) during which the k-th posterior evaluation raises; the caller catches the error and keeps the
-    sampler.  The exception is the harness' own InjectedFailure or (every third k) a StopIteration, as raised by a
-    posterior that reads from an exhausted iterator.  Returns True if the failure fired and reached the caller,
+    sampler.  The exception is (k mod 3) a StopIteration, as raised by a posterior that reads
+    from an exhausted iterator, the harness' own InjectedFailure, or an InjectedInterrupt (a KeyboardInterrupt: the user
+    presses Ctrl-C during a long run and keeps the sampler).  Returns True if the failure fired and reached the caller,
     False if the run needed fewer than k evaluations, "swallowed" if it fired but advance() returned normally."""
     c = rctx.get()
-    exc_type = StopIteration if int(k) % 3 == 0 else rctx.InjectedFailure
+    exc_type = (StopIteration, rctx.InjectedFailure, rctx.InjectedInterrupt)[int(k) % 3]
     c.eval_failures[h.target.tag] = (int(k), exc_type)
     fired0 = c.stats["fault_posterior_raised_mid_operation"]
     try:
         op_advance(h, m)
         return "swallowed" if c.stats["fault_posterior_raised_mid_operation"] > fired0 else False
-    except rctx.InjectedFailure:
+    except (rctx.InjectedFailure, rctx.InjectedInterrupt):
+        if exc_type is rctx.InjectedInterrupt:
+            c.stats["fault_keyboard_interrupt_mid_operation"] += 1
         return True
     except LibRaised as e:
         if isinstance(e.exc, StopIteration) and c.stats["fault_posterior_raised_mid_operation"] > fired0:
@@ -394,6 +400,49 @@ def op_interrupted_advance(h, m, k):
         raise
     finally:
         c.eval_failures[h.target.tag] = None
+
+
+def op_limits(h, i, mode, seed):
+    """Limits changed on a live Gibbs-family chain (public set_boundaries / set_non_negative), possibly after it has moved
+    and possibly to an interval that does not contain the chain's current value (the call is accepted by the library;
+    what was recorded stays recorded).  Keeps `h.limits` (used to fold exchanged points) up to date.
+    Returns the kind of change made, or None for sampler classes without these calls."""
+    if h.kind not in ("gibbs", "metropolis"):
+        return None
+    i = int(i) % h.d
+    g = np.random.Generator(np.random.PCG64([int(seed), 23]))
+    S, _ = h.rows()
+    cur = float(S[-1, i])
+    bnd, nn = h._bnd, h._nn
+    w = float(10.0 ** g.uniform(-1.0, 1.0))
+    if mode == "around":
+        lo = cur - w * float(g.uniform(0.05, 0.95))
+        lib_call("set_boundaries", h.chain.set_boundaries, i, (lo, lo + w))
+        bnd[i] = (lo, lo + w)
+    elif mode == "away":
+        lo = cur + w * float(g.uniform(0.1, 1.5)) if g.random() < 0.5 else cur - w * float(g.uniform(1.1, 2.5))
+        if i in nn:
+            lo = max(lo, 0.0)
+        lib_call("set_boundaries", h.chain.set_boundaries, i, (lo, lo + w))
+        bnd[i] = (lo, lo + w)
+        rctx.get().stats["fault_limits_set_away_from_the_current_value"] += 1
+    elif mode == "remove":
+        lib_call("set_boundaries", h.chain.set_boundaries, i, None, remove=True)
+        bnd.pop(i, None)
+    elif mode == "nonneg":
+        lib_call("set_non_negative", h.chain.set_non_negative, i, True)
+        nn.add(i)
+    else:
+        lib_call("set_non_negative", h.chain.set_non_negative, i, False)
+        nn.discard(i)
+    lo, hi = bnd.get(i, (-np.inf, np.inf))
+    if i in nn:
+        lo = max(lo, 0.0)
+    if np.isfinite(lo) or np.isfinite(hi):
+        h.limits[i] = [lo, hi]
+    else:
+        h.limits.pop(i, None)
+    return mode
 
 
 def op_exchange(h, position, L, copy=True):
